@@ -109,6 +109,9 @@ def cases(tier, seed):
                 out.append(dict(kind="nonstatio", dim=1 + n % 2, cap_t=ct, nstart_t=nt0, sel_t=st_, sample_t=max(st_, 2), b_t=2, cap_x=cx,
                                 nstart_x=nx0, sel_x=sx, sample_x=max(sx, 3), b_x=2, start=start, every=every, iters=start + every * 8 + 1,
                                 seed=sd + n, land=lands[n % 3], ret="scalar"))
+    # refinement driven by a SYSTEM loss (two equations of opposite sign sharing one unknown)
+    sysl = [dict(c, sys=True, ret="vec") for k, c in enumerate(out) if k % (11 if q else 4) == 0 and c.get("ret") != "vec2"]
+    out += sysl
     # end-to-end through jinns.solve (hooks H1 + H2)
     e2e = [c for k, c in enumerate(out) if k % (9 if q else 3) == 0]
     out += [dict(c, mode="solve") for c in e2e]
